@@ -341,6 +341,9 @@ class LexicalAbc(Lexical, metaclass=LexicalAbcMeta, lexcopy=True):
                     errors.warn(
                         f'duplicate value for attribute {name}',
                         errors.RepeatValueWarning)
+                    # Keep the existing object: an equal value need not be
+                    # the same one (an enum member equals its name).
+                    return
                 else:
                     raise Emsg.ReadOnly(self, name)
         super().__setattr__(name, value)
